@@ -265,3 +265,34 @@ func thorough(args []string) int {
 	}
 	return code
 }
+
+// oneMutant runs a single named mutant (debugging aid).
+func oneMutant(args []string) int {
+	fs := flag.NewFlagSet("mutant", flag.ExitOnError)
+	prop := fs.String("p", "", "property id")
+	name := fs.String("name", "", "mutant name")
+	verif := fs.String("verif", "/verif", "verif directory")
+	_ = fs.Parse(args)
+	ms, err := loadMutants(filepath.Join(*verif, "mutants"))
+	if err != nil {
+		fmt.Println(err)
+		return 2
+	}
+	known, _ := core.LoadKnown(*verif + "/known_findings.json")
+	dir := os.Getenv("VERIF_REPO")
+	if dir == "" {
+		dir = "/repo"
+	}
+	for _, m := range ms {
+		if m.Name == *name {
+			r := runMutant(dir, m, *prop, known)
+			fmt.Printf("%s: %s\n", r.Name, r.Outcome)
+			for _, x := range r.Reported {
+				fmt.Println("  ", x)
+			}
+			return 0
+		}
+	}
+	fmt.Println("no such mutant")
+	return 2
+}
